@@ -25,6 +25,10 @@ import (
 	"golang.org/x/tools/go/ssa"
 )
 
+// strictAppend: also report a plain append(x, …) onto a slice of the root's memory. Not a definite write (it needs spare capacity),
+// but two goroutines doing it on the same message race on the backing array; used by C20 only.
+var strictAppend bool
+
 type msgWrite struct {
 	Fn    *ssa.Function
 	Instr ssa.Instruction
@@ -236,6 +240,9 @@ func writesThroughRoot(p *Prog, fn *ssa.Function, root ssa.Value, depth int, cha
 				if bi, ok := cc.Value.(*ssa.Builtin); ok {
 					switch bi.Name() {
 					case "append":
+						if strictAppend && D[cc.Args[0]] && !RS[cc.Args[0]] && len(cc.Args) > 1 {
+							add(in, "append onto one of its own slices (writes into the spare capacity of the shared backing array when there is any — decoded messages have it)")
+						}
 						if RS[cc.Args[0]] {
 							add(in, "append onto a re-sliced part of one of its own slices (overwrites the elements behind it)")
 						}
